@@ -60,6 +60,54 @@ def gen_case(rng: random.Random, idx: int, heavy: bool) -> dict:
             'gc_phase': rng.randrange(0, 700)}
 
 
+# disturbances of a run, rotated over the disturbed cases of a shard (see gen_disturbed)
+DISTURBANCES = ('stop', 'payload-lock', 'stop-close', 'outcome-lock', 'close', 'undeclared', 'payload-local',
+                'outcome-local')
+
+
+def gen_disturbed(rng: random.Random, idx: int, kind: str, heavy: bool) -> dict:
+    """one real-pool case the statement does not determine completely (JSON-able): the consumer abandons the run
+    (kind 'stop' / 'stop-close' / 'close', see c18_sched.consume) or some payload cannot be carried to a captured
+    result (a c18_sched.POISON_KINDS kind).  Such a run is judged by c18_sched.check_disturbed; the runs that FOLLOW it
+    in the same process are ordinary cases and are judged completely."""
+    workers = rng.choice([1, 2, 2, 3, 4, rng.randint(1, 8)])
+    window = 1 + workers                               # what a bounded submission window would hold
+    if rng.random() < 0.25:
+        n = rng.randint(2, window)
+    else:
+        n = window + rng.randint(1, 40 if heavy else 14)
+    p_exc = rng.choice([0.0, 0.3, 0.6])
+    cls_pool = rng.choice([['plain'], ['plain', 'proto', 'visual'], ['proto']])
+    specs = []
+    for i in range(n):
+        cls = rng.choice(cls_pool)
+        exc = None
+        if rng.random() < p_exc:
+            exc = rng.choice([k for k in S.EXC_KIND_NAMES if not (cls == 'visual' and k == 'type')])
+        specs.append({'uid': 1000 * (idx + 1) + i, 'exc': exc, 'cls': cls, 'sleep': rng.choice([0, 0, 1, 3, 8]),
+                      'raises': 'none' if cls == 'visual' else rng.choice(S.RAISES_NAMES)})
+    args, kwargs = rng.choice([([], {}), ([7], {}), (['x', 2], {'k': 'v'})])
+    case = {'idx': idx, 'workers': workers, 'specs': specs, 'args': args, 'kwargs': kwargs,
+            'entry': 'legacy' if rng.random() < 0.2 else 'parproc', 'pickable': rng.random() < 0.25,
+            'gc_phase': rng.randrange(0, 700), 'disturbed': kind}
+    if kind in ('stop', 'stop-close', 'close'):
+        case['abandon'] = {'after': rng.randint(1, max(1, n - 1)), 'how': kind, 'seq': True}
+    else:
+        positions = set()
+        for _ in range(rng.choice([1, 1, 1, 2])):
+            beyond = n > window and rng.random() < 0.7   # surfaces after other results were delivered
+            positions.add(rng.randrange(window, n) if beyond else rng.randrange(n))
+        for pos in positions:
+            sp = specs[pos]
+            sp['poison'] = kind
+            if kind == 'undeclared':
+                sp['cls'] = 'plain' if sp['cls'] == 'visual' else sp['cls']
+                # (StopIteration escaping into the loop's own generators is a corner of its own: not generated)
+                sp['exc'] = rng.choice([k for k in S.EXC_KIND_NAMES if k != 'stopiter'])
+                sp['raises'] = 'exact'
+    return case
+
+
 def run_case(case: dict) -> dict:
     specs = case['specs']
     keep = None
@@ -71,16 +119,28 @@ def run_case(case: dict) -> dict:
         keep = [[] for _ in range(case['gc_phase'])]
     kwargs = dict(case['kwargs'])
     t0 = time.monotonic()
+    abandon = case.get('abandon')
+    facts: dict = {}
     gen = S.call_entry(case['entry'], specs, tuple(case['args']), dict(kwargs, vt_scale=1.0),
                        True, case['workers'], case['pickable'])
-    par, par_end = S.consume(gen, len(specs))
+    par, par_end = S.consume(gen, len(specs), abandon=abandon, facts=facts)
     t1 = time.monotonic()
     gen = S.call_entry(case['entry'], specs, tuple(case['args']), dict(kwargs, vt_scale=0),
                        False, case['workers'], case['pickable'])
     seq, seq_end = S.consume(gen, len(specs))
+    out = {'done': case['idx'], 'par': par, 'par_end': par_end, 'seq': seq, 'seq_end': seq_end,
+           'wall_par': round(t1 - t0, 3), 'wall_seq': round(time.monotonic() - t1, 3), 'main_pid': os.getpid()}
+    if abandon is not None:
+        out['abandon'] = facts
+        if abandon.get('seq') and len(specs) >= 2:
+            # the same consumer behaviour in the sequential mode
+            sfacts: dict = {}
+            gen = S.call_entry(case['entry'], specs, tuple(case['args']), dict(kwargs, vt_scale=0),
+                               False, case['workers'], case['pickable'])
+            sab, sab_end = S.consume(gen, len(specs), abandon=abandon, facts=sfacts)
+            out.update(seq_abandoned=sab, seq_abandoned_end=sab_end, seq_abandon=sfacts)
     del keep
-    return {'done': case['idx'], 'par': par, 'par_end': par_end, 'seq': seq, 'seq_end': seq_end,
-            'wall_par': round(t1 - t0, 3), 'wall_seq': round(time.monotonic() - t1, 3), 'main_pid': os.getpid()}
+    return out
 
 
 def main(argv):
